@@ -346,19 +346,17 @@ Fixpoint fans_out_pure (v : value) (p : path) {struct v} : bool :=
   end.
 
 (* The property's domain is D1-D4 as written.  Inside it lungo is known to
-   differ from the reference in four classes of conditions (known_findings.json,
-   property C10); each class is a switch.  With all switches off (`strict`) the
-   classes are excluded: that is the domain `core` on which match_ref is
-   proved.  With all switches on (`lenient`) the domain is D1-D4 itself. *)
+   differ from the reference in one class of conditions (known_findings.json,
+   property C10), which is a switch.  With the switch off (`strict`) the class
+   is excluded: that is the domain `core` on which match_ref is proved.  With
+   the switch on (`lenient`) the domain is D1-D4 itself.  (Three more classes —
+   $type "array", $exists and $size under fan-out — were repaired in lungo.) *)
 Record flags : Type := {
-  f_type_array : bool;   (* $type "array" under fan-out            C10:type-array-under-fanout *)
-  f_exists : bool;       (* $exists under fan-out, empty array leaf C10:exists-under-fanout-empty-array *)
-  f_size : bool;         (* $size under fan-out                     C10:size-under-fanout *)
   f_index : bool         (* a numeric segment indexing into an array that holds documents is
                             not a fan-out (null operands allowed)   C10:null-with-index-into-document-array *)
 }.
-Definition strict : flags := Build_flags false false false false.
-Definition lenient : flags := Build_flags true true true true.
+Definition strict : flags := Build_flags false.
+Definition lenient : flags := Build_flags true.
 
 Definition fan_of (fl : flags) (root : value) (p : path) : bool :=
   if f_index fl then fans_out_pure root p else fans_out root p.
@@ -404,22 +402,11 @@ Fixpoint core_op (fl : flags) (x : value) (op : string) (root : value) (p : path
     | VArr vs => negb fan || forallb plain_scalar vs
     | _ => false
     end
-  else if String.eqb op "$exists" then
-    (* finding: under fan-out lungo tests "the merged collection is non-empty";
-       an empty array found at the path does not count *)
-    negb fan || f_exists fl
-    || negb (existsb (fun c => match c with VArr [] => true | _ => false end) (rlookup root p))
+  else if String.eqb op "$exists" then true
   else if String.eqb op "$type" then
-    match type_spec x with
-    | Some spec =>
-        (* finding: under fan-out lungo merges array leaves into their elements
-           and no longer sees the arrays themselves *)
-        negb fan || f_type_array fl || negb (existsb (fun t => (t =? ty_array)%Z) (snd spec))
-    | None => false
-    end
+    match type_spec x with Some _ => true | None => false end
   else if String.eqb op "$size" then
-    (* finding: under fan-out lungo counts collected result lists as array values *)
-    (negb fan || f_size fl) && match size_arg x with Ok _ => true | _ => false end
+    match size_arg x with Ok _ => true | _ => false end
   else if String.eqb op "$all" then
     match x with
     | VArr vs => negb fan
@@ -513,7 +500,4 @@ Inductive dclass : Type := DCore | DFinding (signature : string) | DOutside.
 Definition domain_class (d f : doc) : dclass :=
   if coreb d f then DCore
   else if negb (domainb d f) then DOutside
-  else if negb (coreb_gen (Build_flags false true true true) d f) then DFinding "C10:type-array-under-fanout"
-  else if negb (coreb_gen (Build_flags true false true true) d f) then DFinding "C10:exists-under-fanout-empty-array"
-  else if negb (coreb_gen (Build_flags true true false true) d f) then DFinding "C10:size-under-fanout"
   else DFinding "C10:null-with-index-into-document-array".
